@@ -239,6 +239,9 @@ fn judge_place(rec: &mut Recorder, c: &place::PlaceCase, ex: Exec, _hello: &Valu
         FakeSel::SynthAbs { api, .. } => format!("synth-abs-api{}", api % 3),
     };
     rec.class(&format!("{tclass}/{}{}", flav, if o.straddles { "/straddle" } else { "" }));
+    if o.sibling_faked {
+        rec.class(if o.straddles { "sibling-in-the-same-page-faked-first/straddle" } else { "sibling-in-the-same-page-faked-first" });
+    }
     if o.priors > 0 {
         rec.class(&format!("re-fake/after-{}-earlier-installations", o.priors));
         if let (FakeSel::Rust { kind, .. }, Some((first, _))) = (&c.fake, c.prior.first()) {
